@@ -40,7 +40,7 @@ CONSTANTS MaxArt,      \* artifact ids are 1..MaxArt
           Sweep,       \* "both" | "files" | "none"
           Recs,        \* catalogue of artifact records
           Shapes,      \* catalogue of reference DAGs
-          ExprLists,   \* catalogue of retention expression lists
+          ExprLists,   \* catalogue of retention expression lists (generation mode draws its own)
           GenDepth     \* behaviour length in generation mode (0 = no printing)
 
 VARIABLES shape, files, idx, rrow, snap, nh, nc, viol, last, hist
@@ -50,6 +50,7 @@ view == <<shape, files, idx, rrow, snap, nh, nc, viol>>
 viewL == <<shape, files, idx, rrow, snap, nh, nc, viol, last>>   \* for the reachability configs
 
 Art == 1..MaxArt
+Gen == GenDepth > 0        \* generation mode (tlc -simulate)
 
 ----------------------------------------------------------------------------
 (* values *)
@@ -272,7 +273,9 @@ FindNs(el, ns) ==
   /\ nc' = nc + 1
   /\ UNCHANGED <<shape, files, nh>>
 
-(* P layer, part 2: the property, as action properties over files / snap / last' *)
+----------------------------------------------------------------------------
+(* P layer, part 2: the property, as step properties over files / files' / snap / last'
+   (they do not mention idx, rrow or anything else of the M layer) *)
 
 IsCmd(c) == nc' # nc /\ last'.cmd = c
 Unchanged(F, G) == \A a \in Present(G) : G[a] = F[a]     \* what is kept is kept as it was
@@ -347,14 +350,32 @@ CleanExactProbe == CleanExact \/ (PrintT(<<"@@", ToJson(hist)>>) /\ FALSE)
 
 ----------------------------------------------------------------------------
 Done ==
-  /\ nh = MaxHist /\ nc = MaxCmd
+  /\ nh = MaxHist /\ (nc = MaxCmd \/ (Gen /\ Present(files) = {} /\ Rows(idx) = {}))
   /\ UNCHANGED vars
 
-Add              == \E a \in Art, r \in Recs : AddOp(a, r) /\ Monitor
-RemoveExternally == \E a \in Art : RemoveOp(a) /\ Monitor
-Scan             == ScanOp /\ Monitor
-Clean            == \E el \in ExprLists, ns \in BOOLEAN : CleanNs(el, ns) /\ Monitor
-Find             == \E el \in ExprLists, ns \in BOOLEAN : FindNs(el, ns) /\ Monitor
+\* Generation mode (GenDepth > 0, tlc -simulate): TLC picks uniformly among the successor
+\* states, so every parameter is drawn with RandomElement; each kind of operation then has
+\* about the same weight instead of the weight of its parameter space.
+Pick(S) == IF Gen /\ S # {} THEN {RandomElement(S)} ELSE S
+Norm(p, l, k, o) == MkE(p, l, IF l = 0 THEN "date" ELSE k, IF l = 0 THEN FALSE ELSE o)
+\* (the parameter n = nh + nc only keeps TLC from evaluating the definition once and for all
+\* as a constant)
+GenLists(n) == {<<Norm(p1, l1, k1, o1)>> \o (IF two = 1 THEN <<Norm(p2, l2, k2, o2)>> ELSE <<>>) :
+               p1 \in Pick(1..NPred), l1 \in Pick(0..2), k1 \in Pick({"date", "rank"}), o1 \in Pick(BOOLEAN),
+               p2 \in Pick(1..NPred), l2 \in Pick(0..2), k2 \in Pick({"date", "rank"}), o2 \in Pick(BOOLEAN),
+               two \in Pick(1..(3 + 0 * n))}
+Lists == IF Gen THEN GenLists(nh + nc) ELSE ExprLists
+GenNs(n) == {RandomElement(1..(4 + 0 * n)) = 1}
+NsSet == IF Gen THEN GenNs(nh + nc) ELSE BOOLEAN
+
+\* generated behaviours do not spend commands on an archive that is and always was empty
+Worth == Gen => (Present(files) # {} \/ Rows(idx) # {})
+
+Add              == \E a \in Pick({x \in Art : ~files[x].ex}), r \in Pick(Recs) : AddOp(a, r) /\ Monitor
+RemoveExternally == \E a \in Pick(Present(files)) : RemoveOp(a) /\ Monitor
+Scan             == Worth /\ ScanOp /\ Monitor
+Clean            == Worth /\ \E el \in Lists, ns \in NsSet : CleanNs(el, ns) /\ Monitor
+Find             == Worth /\ \E el \in Lists, ns \in NsSet : FindNs(el, ns) /\ Monitor
 
 Next == Add \/ RemoveExternally \/ Scan \/ Clean \/ Find \/ Done
 
@@ -378,17 +399,22 @@ ReachTransitiveKeep ==
     /\ \E a, b, c \in Present(files) : b \in shape[a] /\ c \in shape[b] /\ c \notin shape[a]
          /\ \A S \in AdmSel(last.el, files) : b \notin S /\ c \notin S)
 
+\* the same, printing the history that gets there (these behaviours are replayed on the code)
+Show == PrintT(<<"@@", ToJson(hist)>>) /\ FALSE
+ReachStaleLimitCleanShow == ReachStaleLimitClean \/ Show
+ReachTransitiveKeepShow  == ReachTransitiveKeep \/ Show
+
 ----------------------------------------------------------------------------
 (* catalogues (bound in the .cfg files with <-) *)
 
 \* four records with a tie on date, a tie on "rank not populated" and both packages
 RecsTiny  == {Rec("p", 1, 0), Rec("p", 2, 1), Rec("q", 2, 0), Rec("q", 1, 1)}
 RecsSmall == {Rec(p, d, r) : p \in {"p", "q"}, d \in {1, 2}, r \in {0, 1}}
-RecsMid   == {Rec(p, d, r) : p \in {"p", "q"}, d \in {1, 2}, r \in {0, 1, 2}}
 RecsGen   == {Rec(p, d, r) : p \in {"p", "q", "r"}, d \in {1, 2, 3}, r \in {0, 1, 2}}
 
-AllShapes == {s \in [Art -> SUBSET Art] : \A a \in Art : s[a] \subseteq 1..(a - 1)}
 Fn4(a, b, c, d) == [x \in Art |-> CASE x = 1 -> a [] x = 2 -> b [] x = 3 -> c [] OTHER -> d]
+\* every DAG whose edges go from larger to smaller ids (MaxArt <= 4): 64 shapes
+AllShapes == {Fn4({}, b, c, d) : b \in SUBSET {1}, c \in SUBSET {1, 2}, d \in SUBSET {1, 2, 3}}
 \* chain 3->2->1, diamond 4->{2,3}->1 (shared, transitive), fan-in on 1
 ShapesSmall == {Fn4({}, {1}, {2}, {}), Fn4({}, {1}, {1}, {2, 3})}
 ShapesMid   == {Fn4({}, {1}, {2}, {3}), Fn4({}, {1}, {1}, {2, 3}), Fn4({}, {}, {1, 2}, {1}), Fn4({}, {}, {}, {})}
@@ -401,14 +427,13 @@ ExprsSmall == <<MkE(1, 1, "date", FALSE),      \* 1  everything LIMIT 1         
 ExprListsSmall == {<<ExprsSmall[1]>>, <<ExprsSmall[2]>>, <<ExprsSmall[3]>>, <<ExprsSmall[4]>>,
                    <<ExprsSmall[2], ExprsSmall[5]>>}
 
-ExprsAll == {MkE(p, 0, "date", FALSE) : p \in 1..NPred}
-            \cup {MkE(p, l, k, o) : p \in 1..NPred, l \in 1..2, k \in {"date", "rank"}, o \in BOOLEAN}
-ExprListsMid == {<<e>> : e \in {MkE(p, 0, "date", FALSE) : p \in {2, 5, 8}}
-                              \cup {MkE(p, l, k, o) : p \in {1, 3, 9}, l \in 1..2, k \in {"date", "rank"}, o \in BOOLEAN}}
-                \cup {<<ExprsSmall[2], ExprsSmall[5]>>, <<ExprsSmall[4], ExprsSmall[1]>>}
-ExprListsSel == {<<e>> : e \in ExprsAll}
+\* for the reachability configs
+ShapesOne     == {Fn4({}, {1}, {2}, {3})}
+ExprListsTwo  == {<<ExprsSmall[1]>>, <<ExprsSmall[2]>>}
+
+ExprListsSel == {<<MkE(p, 0, "date", FALSE)>> : p \in 1..NPred}
+                \cup {<<MkE(p, l, k, o)>> : p \in {1, 3, 5, 9}, l \in 1..2, k \in {"date", "rank"}, o \in BOOLEAN}
                 \cup {<<ExprsSmall[2], ExprsSmall[5]>>, <<ExprsSmall[4], ExprsSmall[1]>>, <<ExprsSmall[3], ExprsSmall[1]>>}
-ExprListsGen == {<<e>> : e \in ExprsAll} \cup {<<e, f>> : e, f \in ExprsAll}
 
 ----------------------------------------------------------------------------
 (* generation: print the history of every behaviour of length GenDepth *)
